@@ -100,7 +100,20 @@ def check_model(ctx, case, model, ds, sch, ids, elems):
 
 
 def check_case(case, ctx):
-    ds, sch = case["ds"], case["scheme"]
+    """the case's dataset, then (one case in three) a successor with the same number of elements and rankings -- elements
+    renamed cyclically, every ranking reversed -- solved by the same algorithm objects right afterwards"""
+    judge(case, ctx, case["ds"])
+    ds = case["ds"]
+    elems = ref.universe(ds)
+    if len(elems) >= 3 and gen.digest(ds)[0] in "01234":
+        ren = dict(zip(elems, elems[1:] + elems[:1]))
+        ds2 = [[[ren[e] for e in b] for b in reversed(r)] for r in ds]
+        ctx.count("same_shape_successors")
+        judge({**case, "successor_of": ds}, ctx, ds2)
+
+
+def judge(case, ctx, ds):
+    sch = case["scheme"]
     common.set_case(ctx, case)
     dataset = libx.mk_dataset(ds)
     scheme = libx.mk_scheme(sch)
@@ -126,6 +139,8 @@ def check_case(case, ctx):
         runs.append(("ExactNoOpt", False))
     for cfg, one in runs:
         sub = {"ds": ds, "scheme": sch, "configs": [cfg], "one": one, "cplex": "stand-in" if mode_d else "absent"}
+        if "successor_of" in case:
+            sub["previous_call_on"] = case["successor_of"]
         if mode_d:
             import cplex
             del cplex.MODELS[:]
@@ -205,7 +220,8 @@ def reach(counters, tier, info):
                             ("all-optima cases with >= 2 optima", "all_optima_multi", 50 * k),
                             ("no-tie optimisation applied (stand-in saw t==0 rows)", "notie_applied", 20 * k),
                             ("no-tie optimisation not applicable", "notie_not_applied", 20 * k),
-                            ("non-optimised models checked exhaustively (n<=4)", "models_checked", 10 * k)]:
+                            ("non-optimised models checked exhaustively (n<=4)", "models_checked", 10 * k),
+                            ("same-shape successor datasets solved by the same objects", "same_shape_successors", 150 * k)]:
         v = counters.get(key, 0)
         out.append({"name": name, "observed": v, "required": need, "ok": v >= need})
     for cfg in ["Pulp", "Exact", "ExactNoOpt", "Cplex", "CplexNoOpt", "CplexOptim1", "CplexNoOpt:all"]:
